@@ -16,7 +16,7 @@ RULE = ("Offer kind file/directory with the offered name from a grammar of hosti
         "files, zero mode bits), sizes honest or lying. Configuration: --output-file unset / fresh name / nested "
         "'sub/x' / existing file / existing directory / absolute path in the sandbox; --accept-file on, or off "
         "with a generated interactive answer; pre-existing object at the would-be destination none / file / "
-        "empty dir / non-empty dir; decoy files everywhere else in a sandbox base/outer/cwd incl. base/, "
+        "empty dir / non-empty dir / named pipe / dangling symlink; decoy files everywhere else in a sandbox base/outer/cwd incl. base/, "
         "base/outer/ and a pre-existing <dest>.tmp. Driver: the real Receiver._parse_offer path "
         "(_handle_file/_handle_directory, _decide_destname, _ask_permission, _transfer_data, _write_file/"
         "_write_directory/_extract_file) on the real filesystem with a fake wormhole and record pipe. Oracle: "
@@ -47,7 +47,7 @@ def cases(draw, tier="quick"):
                                         "ABS_FRESH", "ABS_EXISTING_FILE", "ABS_EXISTING_DIR", "..", "."]))
     c["accept"] = draw(st.booleans())
     c["answer"] = draw(st.sampled_from(["y", "", "Y", "yes", "n", "no", "x"]))
-    c["pre"] = draw(st.sampled_from(["none", "none", "file", "emptydir", "dir"]))
+    c["pre"] = draw(st.sampled_from(["none", "none", "file", "emptydir", "dir", "fifo", "dangling"]))
     c["pre_tmp"] = draw(st.sampled_from([False, False, True]))
     c["size"] = draw(st.sampled_from([0, 1, 100, 5000]))
     c["lie"] = draw(st.sampled_from([0, 0, 0, -1, 7]))
@@ -73,6 +73,8 @@ def snapshot(base):
             p = os.path.join(root, f)
             if os.path.islink(p):
                 out[os.path.relpath(p, base)] = ("link", os.readlink(p))
+            elif not stat.S_ISREG(os.lstat(p).st_mode):
+                out[os.path.relpath(p, base)] = ("special", stat.S_IFMT(os.lstat(p).st_mode))
             else:
                 try:
                     with open(p, "rb") as fh:
@@ -216,6 +218,14 @@ def _run(c, res, base, cmd_receive):
                 os.makedirs(os.path.join(path, "old"))
                 put(os.path.join(path, "old", "o.txt"), b"old content")
                 return "dir"
+            if pre == "fifo":
+                os.mkfifo(path)
+                return "fifo"
+            if pre == "dangling":
+                # a stale symlink whose target does not exist (its parent does, outside the working directory)
+                os.makedirs(os.path.join(base, "elsewhere"), exist_ok=True)
+                os.symlink(os.path.join(base, "elsewhere", "target"), path)
+                return "dangling"
         except OSError:
             pass
         return "none"
@@ -239,7 +249,7 @@ def _run(c, res, base, cmd_receive):
     if not must_fail and not os.path.lexists(dest):
         pre_made = make_pre(dest)
     elif os.path.lexists(dest):
-        pre_made = "dir" if os.path.isdir(dest) else "file"
+        pre_made = "dir" if os.path.isdir(dest) else "file" if os.path.isfile(dest) else "special"
     sibling = dest + "2"
     if dest_in_sandbox and not must_fail and not os.path.lexists(sibling) and os.path.isdir(os.path.dirname(sibling)) \
             and len(os.path.basename(sibling)) < 200:
@@ -345,7 +355,7 @@ def _run(c, res, base, cmd_receive):
     if must_fail and ok:
         res.violate("outside", "offer basename %r cannot name a child of the working directory/target, but the "
                     "transfer succeeded; %s" % (bn, info), input_class="hostile-basename-accepted")
-    if out is None and pre_made != "none":
+    if out is None and pre_made not in ("none", "dangling"):
         if ok or any(allowed(p) and p != rel_tmp for p in created + modified + removed):
             res.violate("clobber", "no --output-file and the destination exists, but it was touched / the transfer "
                         "succeeded; %s" % info, input_class="existing-destination-overwritten-without-output-file")
@@ -359,7 +369,7 @@ def _run(c, res, base, cmd_receive):
             res.violate("clobber", "content of an existing directory changed: %r; %s" % (p, info),
                         input_class="existing-directory-content-changed")
             break
-    if pre_made == "file" and rel_dest in before and after.get(rel_dest) != before.get(rel_dest) and not named_by_output:
+    if pre_made in ("file", "fifo") and rel_dest in before and after.get(rel_dest) != before.get(rel_dest) and not named_by_output:
         res.violate("clobber", "existing file replaced although --output-file did not name it; %s" % info,
                     input_class="existing-file-replaced-without-output-file")
     if ok and not os.path.lexists(dest) and (c["kind"] == "file" or c.get("members")):
